@@ -1,6 +1,7 @@
 package rules
 
 import (
+	"sort"
 	"fmt"
 	"go/token"
 	"go/types"
@@ -29,7 +30,7 @@ func r14k(c *core.Ctx) {
 			continue
 		}
 		p := fn.Pkg.Pkg.Path()
-		if !strings.HasSuffix(p, "/internal/upstream/transport") && !strings.HasSuffix(p, "/internal/upstream") {
+		if !strings.HasSuffix(p, "/internal/upstream/transport") && !strings.HasSuffix(p, "/internal/upstream") && !strings.HasSuffix(p, "/app/router") && !strings.HasSuffix(p, "/internal/cache") {
 			continue
 		}
 		for _, call := range core.Calls(fn) {
@@ -328,4 +329,158 @@ func init() {
 	reg("C11", "", Rule{ID: "R20a", Doc: "no use of a pooled buffer after its release (the regexp matcher reads the text buffer it released)", Floor: 60, AllVariants: true, Run: r20a})
 	reg("C13", "", Rule{ID: "R20k", Doc: "message sections own their records (a response does not share the query's Question)", Floor: 10, AllVariants: true, Run: r20k})
 	reg("C19", "", Rule{ID: "R07d", Doc: "a cache entry's value is copied while its lock is held (a refresh may replace and recycle it)", Floor: 15, Run: r07d})
+}
+
+// ---------- R20q: guarded-by — a field written under its struct's mutex is never touched without it ----------
+
+// For every module struct with a sync.Mutex / sync.RWMutex field: a field that some non-constructor function writes
+// while holding that mutex of the same object is *guarded*; every other access of it (outside constructors, where the
+// object is not yet shared) must hold the mutex too. The guarded set is inferred from the tree on every run (Engler's
+// "beliefs": code that locks before writing believes the field is shared) and compared with the frozen table of the
+// reviewed tree, so that a field cannot silently drop out by losing its last locked write.
+var guardedReviewed = map[string]string{
+	// struct.field@function -> reason an unlocked access is fine
+	"cacheEntry.v@internal/cache.NewMemoryCache$1": "otter's Cost callback reads len(value.v) of the entry that is being inserted by the goroutine that just filled it (under the entry lock); the entry is not reachable by lookups or by the deletion listener before the insert completed, and otter computes the cost once per node",
+}
+
+func r20q(c *core.Ctx) {
+	type acc struct {
+		fn     *ssa.Function
+		in     ssa.Instruction
+		write  bool
+		locked bool
+		ctor   bool
+	}
+	byField := map[string][]acc{}
+	mutexField := map[string]string{} // struct -> mutex field name
+	for _, fn := range c.SrcFuncs() {
+		if fn.Pkg == nil || !core.IsModule(fn.Pkg.Pkg) {
+			continue
+		}
+		core.EachInstr(fn, func(_ *ssa.BasicBlock, _ int, in ssa.Instruction) {
+			fa, ok := in.(*ssa.FieldAddr)
+			if !ok {
+				return
+			}
+			ref := core.FieldAddrRef(fa)
+			if ref.Struct == nil {
+				return
+			}
+			st, ok := ref.Struct.Underlying().(*types.Struct)
+			if !ok {
+				return
+			}
+			sname := core.StructName(ref.Struct)
+			mname := ""
+			for i := 0; i < st.NumFields(); i++ {
+				ts := st.Field(i).Type().String()
+				if ts == "sync.Mutex" || ts == "sync.RWMutex" {
+					mname = st.Field(i).Name()
+					break
+				}
+			}
+			if mname == "" || ref.Name == mname {
+				return
+			}
+			mutexField[sname] = mname
+			// the object under construction: base is a fresh allocation of this function
+			ctor := false
+			base := fa.X
+			if _, isAlloc := base.(*ssa.Alloc); isAlloc {
+				ctor = true
+			}
+			baseExpr := strings.TrimPrefix(core.Expr(base), "&")
+			refs := fa.Referrers()
+			if refs == nil {
+				return
+			}
+			for _, r := range *refs {
+				write := false
+				switch x := r.(type) {
+				case *ssa.Store:
+					if x.Addr != ssa.Value(fa) {
+						continue
+					}
+					write = true
+				case *ssa.UnOp:
+					if x.Op != token.MUL {
+						continue
+					}
+				case *ssa.MapUpdate, *ssa.Lookup, *ssa.Call, *ssa.IndexAddr, *ssa.FieldAddr, *ssa.Range:
+					// the field's address used in place (map in a field, nested struct): counts as a read here
+				default:
+					continue
+				}
+				held, m := lockHeldAt(fn, r, "."+mname)
+				locked := held && strings.TrimSuffix(m, "."+mname) == baseExpr
+				byField[sname+"."+ref.Name] = append(byField[sname+"."+ref.Name], acc{fn, r, write, locked, ctor})
+			}
+		})
+	}
+	var names []string
+	for k := range byField {
+		names = append(names, k)
+	}
+	sort.Strings(names)
+	guarded := 0
+	for _, k := range names {
+		as := byField[k]
+		isGuarded := false
+		for _, a := range as {
+			if a.write && a.locked && !a.ctor {
+				isGuarded = true
+			}
+		}
+		if !isGuarded {
+			continue
+		}
+		guarded++
+		for i, a := range as {
+			if a.ctor || a.locked {
+				continue
+			}
+			// helper methods that are only called with the lock held are summarised by their callers
+			if calledOnlyLocked(c, a.fn, mutexField[strings.Split(k, ".")[0]]) {
+				continue
+			}
+			if why, ok := guardedReviewed[k+"@"+core.FuncName(a.fn)]; ok {
+				c.Reviewed(fmt.Sprintf("guarded-by:%s@%s#%d", k, core.FuncName(a.fn), i), a.in.Pos(), a.fn, "a field written under its struct's mutex is accessed only with that mutex held", why)
+				continue
+			}
+			kind := "read"
+			if a.write {
+				kind = "written"
+			}
+			c.Bad(fmt.Sprintf("guarded-by:%s@%s#%d", k, core.FuncName(a.fn), i), a.in.Pos(), a.fn,
+				"a field written under its struct's mutex is accessed only with that mutex held (outside constructors)", k+" is "+kind+" without "+mutexField[strings.Split(k, ".")[0]]+" held")
+		}
+		c.OK("guarded-field:"+k, 0, nil, "field is guarded by its struct's mutex", fmt.Sprintf("%d accesses", len(as)))
+	}
+	if guarded < 8 {
+		c.Unknown("guarded-fields", 0, nil, "at least 8 guarded fields are inferred", fmt.Sprint(guarded))
+	}
+}
+
+// calledOnlyLocked: every static call site of fn holds a mutex whose name ends in the struct's mutex field.
+func calledOnlyLocked(c *core.Ctx, fn *ssa.Function, mname string) bool {
+	sites := c.CallSitesOf(fn)
+	if len(sites) == 0 {
+		return false
+	}
+	for _, s := range sites {
+		if held, _ := lockHeldAt(s.Fn, s.Call, "."+mname); !held {
+			return false
+		}
+	}
+	return true
+}
+
+func init() {
+	r20qR := Rule{ID: "R20q", Doc: "guarded-by: fields written under their struct's mutex are accessed only under it", Floor: 8, AllVariants: true, Run: r20q}
+	reg("C20", "", r20qR)
+	reg("C14", "", r20qR)
+	reg("C05", "", r20qR)
+	reg("C06", "", r20qR)
+	reg("C15", "", r20qR)
+	reg("C19", "", r20qR)
 }
